@@ -61,6 +61,11 @@ impl fmt::Debug for FsWatcherBuilder {
 fn id_of_path(id_builder: &mut IdBuilder, root: &Path, path: &Path) -> Option<OwnedDirEntry> {
     id_builder.reset();
 
+    // The root itself is the directory with the empty id
+    if path == root {
+        return Some(OwnedDirEntry::Directory(id_builder.join()));
+    }
+
     for comp in path.parent()?.strip_prefix(root).ok()?.components() {
         match comp {
             path::Component::Normal(s) => id_builder.push(s.to_str()?)?,
@@ -125,15 +130,16 @@ impl notify::EventHandler for NotifyEventHandler {
 
                 for path in event.paths {
                     let paths = match event.kind {
+                        // The content of the parent directory changes too
+                        notify::EventKind::Create(_)
+                        | notify::EventKind::Remove(_)
+                        | notify::EventKind::Modify(notify::event::ModifyKind::Name(_)) => {
+                            match path.parent() {
+                                Some(parent) => vec![&path, parent],
+                                None => vec![&*path],
+                            }
+                        }
                         notify::EventKind::Any | notify::EventKind::Modify(_) => vec![&*path],
-                        notify::EventKind::Create(_) => match path.parent() {
-                            Some(parent) => vec![&path, parent],
-                            None => vec![&*path],
-                        },
-                        notify::EventKind::Remove(_) => match path.parent() {
-                            Some(parent) => vec![parent],
-                            None => vec![],
-                        },
                         notify::EventKind::Access(_) | notify::EventKind::Other => return,
                     };
                     let ids = paths
